@@ -173,6 +173,9 @@ pub enum Op {
     Drop(u32),
     Get(u32),
     GetMut(u32),
+    /// `table.get_mut(world.get_mut_raw(id)?)`: the other way to a `&mut dyn Resource` (needs `&mut World`:
+    /// nothing may be alive; the model answers what it answers to `getmut`)
+    GetRaw(u32),
     GetLoc(u32),
     Iter,
     IterMut,
@@ -204,6 +207,7 @@ impl Op {
             Op::Drop(k) => format!("meta drop {}", k),
             Op::Get(t) => format!("meta get {}", t),
             Op::GetMut(t) => format!("meta getmut {}", t),
+            Op::GetRaw(t) => format!("meta getraw {}", t),
             Op::GetLoc(t) => format!("meta getloc {}", t),
             Op::Iter => "meta iter".into(),
             Op::IterMut => "meta itermut".into(),
@@ -241,6 +245,7 @@ impl Op {
                 ("drop", 2) => n(1).map(Op::Drop),
                 ("get", 2) => ty(1, all).map(Op::Get),
                 ("getmut", 2) => ty(1, all).map(Op::GetMut),
+                ("getraw", 2) => ty(1, all).map(Op::GetRaw),
                 ("getloc", 2) => ty(1, all).map(Op::GetLoc),
                 ("arm", 2) => ty(1, 1).map(|b| Op::Arm(b == 1)),
                 ("trait", 2) => ty(1, 1).map(Op::Trait),
@@ -270,7 +275,7 @@ impl Op {
         v
     }
     fn is_mut(&self) -> bool {
-        matches!(self, Op::Reg(_) | Op::Ins(_) | Op::Rem(_) | Op::Trait(_))
+        matches!(self, Op::Reg(_) | Op::Ins(_) | Op::Rem(_) | Op::Trait(_) | Op::GetRaw(_))
     }
 }
 
@@ -498,6 +503,36 @@ fn do_get<T: Val, K: Kind>(w: &World, table: &Tbl<K>, excl: bool) -> GetObs {
             GetObs::Some { tag, same, own, stamp, after_trait, .. } => GetObs::Some { tag, same, own, stamp, after_trait, after_concrete: Some(f.stamp_of()) },
             o => o,
         }
+    }
+}
+
+fn do_getraw<T: Val, K: Kind>(w: &mut World, table: &Tbl<K>) -> GetObs {
+    let want = match w.try_fetch::<T>() {
+        None => return GetObs::Absent,
+        Some(f) => &*f as *const T as usize,
+    };
+    let obs = {
+        let r: &mut dyn Resource = match w.get_mut_raw(ResourceId::new::<T>()) {
+            None => return GetObs::Absent,
+            Some(r) => r,
+        };
+        match guarded(move || table.get_mut(r)) {
+            Err(p) => GetObs::Panic(panic_message(&p)),
+            Ok(None) => GetObs::None,
+            Ok(Some(o)) => {
+                let (tag, same, own, stamp) = inspect::<T, K>(o, want);
+                let mut after_trait = None;
+                if stamp.is_some() {
+                    K::obj_mut(o).bump();
+                    after_trait = Some(K::obj(o).stamp());
+                }
+                GetObs::Some { tag, same, own, stamp, after_trait, after_concrete: None }
+            }
+        }
+    };
+    match obs {
+        GetObs::Some { tag, same, own, stamp, after_trait, .. } => GetObs::Some { tag, same, own, stamp, after_trait, after_concrete: w.try_fetch::<T>().map(|f| f.stamp_of()) },
+        o => o,
     }
 }
 
@@ -1422,7 +1457,7 @@ impl<'a, K: Kind> Phase<'a, K> {
                     cx.sh.armed = *b;
                     "ok".into()
                 }
-                Op::End | Op::Reg(_) | Op::Ins(_) | Op::Rem(_) | Op::Trait(_) => unreachable!("phase boundary inside a phase"),
+                Op::End | Op::Reg(_) | Op::Ins(_) | Op::Rem(_) | Op::Trait(_) | Op::GetRaw(_) => unreachable!("phase boundary inside a phase"),
             };
             cx.model(&line, &obs, "outcome");
             if cx.stop {
@@ -1512,6 +1547,11 @@ fn eval_kind<K: Kind>(ops: &[Op], drv: Option<&mut Drv>) -> CaseResult {
                         }
                     }
                 }
+                Op::GetRaw(t) => {
+                    let o = with_val!(*t, T => do_getraw::<T, K>(&mut world, &table));
+                    let mut ph: Phase<'_, K> = Phase { world: &world, table: &table, guards: vec![], iters: vec![] };
+                    ph.check_get(*t, "get_mut", o, &mut cx)
+                }
                 Op::Ins(t) => {
                     let stamp = cx.sh.next_stamp;
                     cx.sh.next_stamp += 1;
@@ -1534,7 +1574,7 @@ fn eval_kind<K: Kind>(ops: &[Op], drv: Option<&mut Drv>) -> CaseResult {
                 }
                 _ => unreachable!(),
             };
-            cx.model(&line, &obs, "outcome");
+            cx.model(&line.replace("meta getraw", "meta getmut"), &obs, "outcome");
             i += 1;
             continue;
         }
@@ -1807,7 +1847,8 @@ fn gen_case(rng: &mut Rng, long: bool) -> Vec<Op> {
                 64..=70 => Op::FetchMut(t),
                 71..=80 => Op::Drop(k),
                 81..=86 => Op::Get(t),
-                87..=91 => Op::GetMut(t),
+                87..=89 => Op::GetMut(t),
+                90..=91 => Op::GetRaw(t),
                 92..=94 => Op::GetLoc(t),
                 95..=97 => {
                     live_iters = live_iters.saturating_sub(1);
@@ -1831,7 +1872,7 @@ fn systematic(todo: &mut Vec<(String, Vec<Op>)>) {
     for kind in 0..2u32 {
         for t in 0..NTY as u32 {
             let head = if kind == 1 { vec![Op::Trait(1)] } else { vec![] };
-            let lookups = [Op::Get(t), Op::GetMut(t), Op::GetLoc(t)];
+            let lookups = [Op::Get(t), Op::GetMut(t), Op::GetRaw(t), Op::GetLoc(t)];
             let loops = [Op::Iter, Op::Collect(0), Op::End, Op::IterMut, Op::Collect(0), Op::End];
             // alone
             let mut a = head.clone();
